@@ -97,3 +97,8 @@ def nontrivial(case, result):
         if t.startswith("Z:") and int(t[2:], 16) >= w:
             return True
     return False
+
+
+def prebuild(root):
+    """translator: regenerate coq/Generated/Loops.v from /repo/src/buint/*.rs (proved equal to the model in Proofs/LoopsTieC06.v)"""
+    return run_translator(root, "rs2v_loops.py")
